@@ -1048,6 +1048,25 @@ class CallMixin(object):
             return self.make_dict(st, args, kwargs, True, node, module)
         if dotted == "json.dumps":
             return Opaque("json.dumps", set().union(*[deps_of(a) for a in args if isinstance(a, Term)]) if args else ())
+        if dotted in ("bisect.bisect_left", "bisect.bisect_right", "bisect.bisect") and len(args) == 2 and not kwargs:
+            # position of x in a constant sorted sequence: a threshold chain over x
+            seq = args[0]
+            elts = None
+            if isinstance(seq, Const) and isinstance(seq.v, (list, tuple)):
+                from .interp_expr import wrap_const
+
+                elts = [wrap_const(e) for e in seq.v]
+            elif isinstance(seq, TupleVal):
+                elts = list(seq.items)
+            elif isinstance(seq, Ref) and st.heap[seq.id].kind == "list" and all(isinstance(g, Const) and truth_const(g.v) for g, _ in st.heap[seq.id].items):
+                elts = [x for _, x in st.heap[seq.id].items]
+            if elts is not None:
+                sym = ">=" if dotted.endswith("left") else ">"
+                out = Const(len(elts))
+                for i in range(len(elts) - 1, -1, -1):
+                    c = self.compare_sym(st, sym, elts[i], args[1], node, module, False)
+                    out = self.mk_ite(st, c, Const(i), out)
+                return out
         OPS = {"operator.mul": ast.Mult, "operator.add": ast.Add, "operator.sub": ast.Sub, "operator.truediv": ast.Div, "operator.floordiv": ast.FloorDiv, "operator.mod": ast.Mod, "operator.pow": ast.Pow}
         if dotted in OPS and len(args) == 2 and not kwargs:
             return self.binop(st, OPS[dotted](), args[0], args[1], node, module)
